@@ -109,3 +109,43 @@ Fixpoint depth_run (max : nat) (d : nat) (evs : list ev) : option nat :=     (* 
   | Enter :: r => if Nat.ltb max d then None else depth_run max (S d) r
   | Leave :: r => depth_run max (d - 1) r
   end.
+
+(* ------------------------------------------------------------------ the member loop of a tag specifier *)
+(** Parser::parseTagTypeSpecifier_AtFirst after the opening brace: members are parsed until the
+    closing brace; a member that fails is followed by panic-mode recovery; [guard] is the repair
+    (skip one token when neither the member nor the recovery moved).  The member parser is ANY
+    function of the cursor (it stands for parseStructDeclaration / parseEnumerator).
+    Result: Some (Some cur') = the closing brace was consumed, Some None = returned at end of file,
+    None = fuel exhausted. *)
+Section MemberLoop.
+  Variable guard : bool.
+  Variables eof close_brace : N.
+  Variables ret cret : list N.                       (* the tables of ignoreMemberDeclaration *)
+  Variable toks : list N.
+  Variable parse_member : nat -> bool * nat.
+
+  Fixpoint member_loop (fuel cur : nat) : option (option nat) :=
+    match fuel with
+    | O => None
+    | S f =>
+        match nth_error toks cur with
+        | None => None
+        | Some k =>
+            if N.eqb k close_brace then Some (Some (S cur))
+            else
+              let (ok, c1) := parse_member cur in
+              if ok then member_loop f c1
+              else match ignore_loop ret cret toks (S (length toks)) c1 with
+                   | None => None
+                   | Some c2 =>
+                       match nth_error toks c2 with
+                       | None => None
+                       | Some k2 =>
+                           if N.eqb k2 eof then Some None
+                           else if guard && Nat.eqb c2 cur && negb (N.eqb k2 close_brace) then member_loop f (S c2)
+                           else member_loop f c2
+                       end
+                   end
+        end
+    end.
+End MemberLoop.
